@@ -13,7 +13,7 @@ PRECONDITIONS = {
     'PRE-TT': 'a parameter documented as TT-tensor is a list of d float '
               'ndarrays Y[k]:[a(k),n(k),a(k+1)], a(0)=a(d)=1, sizes >= 1, no '
               'relation between different size symbols',
-    'PRE-D': 'the number of cores d is instantiated to 2, 3 and 4 (loops over '
+    'PRE-D': 'the number of cores d is instantiated to 2, 3 (quick) and 4, 5 (thorough) (loops over '
              'cores are unrolled); every mode size, rank and sample count is '
              'symbolic',
     'PRE-N2': 'Chebyshev / uniform grid sizes n_k >= 2',
